@@ -40,6 +40,8 @@ type Dtype struct {
 	Props          []byte
 	Members        []Member // compound
 	Base           *Dtype   // array, vlen, enum
+	EnumNames      []string // enumeration: member names in stored order
+	EnumValues     []int64  // enumeration: member values (sign-extended per the base type)
 	Dims           []int    // array
 	Len            int      // encoded length of the whole message
 }
@@ -101,6 +103,19 @@ func (f *File) u(off, n int) uint64 {
 	var v uint64
 	for i := 0; i < n && off+i < len(f.B); i++ {
 		v |= uint64(f.B[off+i]) << (8 * uint(i))
+	}
+	// files with 2- or 4-byte offsets/lengths: the all-ones value of that width is the undefined address /
+	// the unlimited size, widened here so that callers compare with one constant
+	if n < 8 && n >= 2 && (n == f.OffSz || n == f.LenSz) && v == uint64(1)<<(8*uint(n))-1 {
+		return undef
+	}
+	return v
+}
+
+// widen maps the all-ones value of an n-byte address or length field to the 64-bit undefined / unlimited value.
+func widen(v uint64, n int) uint64 {
+	if n >= 2 && n < 8 && v == uint64(1)<<(8*uint(n))-1 {
+		return undef
 	}
 	return v
 }
